@@ -496,6 +496,14 @@ def check(tier: str, seed: int, t0: float, build: core.BuildStatus) -> int:
         for k in range(n_tpl):
             src, feat = nested_terminal_query(rng, uni)
             one_case(model, rng, be, uni, md, src, feat, 4, oc, stats, distinct, thorough)
+        # a conditional whose arms are a constant and a First() value (the guard idiom), USED in arithmetic / a comparison / a
+        # function afterwards: the column is assigned in every event, whichever arm that event takes
+        cn = list(uni.colls)[0]
+        for src in (f'ds.Select(lambda e: e.{cn}("b1")).Select(lambda js: (-1.0 if js.Count() == 0 else js.First().pt()) / 1000.0)',
+                    f'ds.Select(lambda e: (e.{cn}("b1").First().pt() if e.{cn}("b1").Count() > 0 else -1.0) * 2.0)',
+                    f'ds.Select(lambda e: ((0.5 if e.{cn}("b1").Count() == 0 else e.{cn}("b1").First().eta()) > 0.0, e.{cn}("b2").Count()))',
+                    f'ds.Select(lambda e: e.{cn}("b1")).Select(lambda js: abs(-1.0 if js.Count() == 0 else js.First().pt()))'):
+            one_case(model, rng, be, uni, md, src, {"ifexp", "first", "conditional_first_used"}, 4, oc, stats, distinct, thorough)
         if be == "atlas":
             for src in USER_CODE_QUERIES:
                 one_case(model, rng, be, uni, md, src, {"user_cpp"}, 4, oc, stats, distinct, thorough)
